@@ -242,7 +242,13 @@ func bindResultNames(names map[string]Val, sig *types.Signature, res []Val) {
 	// "err" alias for a trailing unnamed error result
 	if sig.Results().Len() > 0 {
 		last := sig.Results().At(sig.Results().Len() - 1)
-		if _, has := names["err"]; !has && isErrorType(last.Type()) {
+		paramErr := false
+		for i := 0; i < sig.Params().Len(); i++ {
+			if sig.Params().At(i).Name() == "err" {
+				paramErr = true // a parameter called err keeps its name; the result is "result"
+			}
+		}
+		if _, has := names["err"]; !has && !paramErr && isErrorType(last.Type()) {
 			names["err"] = res[len(res)-1]
 		}
 	}
@@ -253,8 +259,24 @@ func isErrorType(t types.Type) bool {
 	return ok && n.Obj().Pkg() == nil && n.Obj().Name() == "error"
 }
 
-// call executes a call instruction and returns its results.
+// call executes a call instruction and returns its results; local cells whose address never escapes keep their value.
 func (fr *Frame) call(in ssa.Instruction, c *ssa.CallCommon) []Val {
+	hasCells := false
+	for f := fr; f != nil; f = f.parentFrame {
+		if len(f.cells) > 0 {
+			hasCells = true
+		}
+	}
+	if !hasCells {
+		return fr.call0(in, c)
+	}
+	before := fr.curMem.clone()
+	res := fr.call0(in, c)
+	fr.preserveCells(before, nil)
+	return res
+}
+
+func (fr *Frame) call0(in ssa.Instruction, c *ssa.CallCommon) []Val {
 	ex := fr.ex
 	pos := in.Pos()
 	if b, ok := c.Value.(*ssa.Builtin); ok {
@@ -643,6 +665,17 @@ func (fr *Frame) havocTargets(mem *MemState, targets []AssignTarget, ec *EvalCtx
 			mem.lost = true
 		case a.Mem:
 			ex.havocGoMemory(mem)
+		case a.Maps:
+			var ks []string
+			for k := range ex.arrSorts {
+				if strings.HasPrefix(k, "MH_") || strings.HasPrefix(k, "MV_") || k == "ML" {
+					ks = append(ks, k)
+				}
+			}
+			sort.Strings(ks)
+			for _, k := range ks {
+				ex.memHavoc(mem, k)
+			}
 		case a.Model == "allrows":
 			row := rowCtx.objid(rowCtx.eval(a.Arg))
 			for _, mn := range sortedKeys(ex.S.Models) {
@@ -915,6 +948,7 @@ func (fr *Frame) tryInline(in ssa.Instruction, fn *ssa.Function, args []Val, fre
 	ex := fr.ex
 	// loops in the callee need its own contract's invariants; without them inlining still works (invariant "true")
 	child := newFrame(ex, fn)
+	child.parentFrame = fr
 	if ct, has := ex.S.Contracts[canonName(fn)]; has {
 		child.contract = ct
 	} else if ct, has := ex.S.Contracts[shortName(canonName(fn))]; has {
